@@ -66,7 +66,7 @@ def psub_atom(p, atom, q):
 
 
 def unwrap_array(t):
-    while t[0] == 'call' and show(t[1]) in ('np.array', 'np.asarray', 'list', 'np.asfarray') and len(t[2]) >= 1:
+    while t[0] == 'call' and show(t[1]) in ('np.array', 'np.asarray', 'list', 'np.asfarray', 'np.fromiter', 'numpy.fromiter', 'tuple') and len(t[2]) >= 1:
         t = t[2][0]
     return t
 
@@ -202,6 +202,15 @@ def run(rep, repo, tier):
         if any(NOT(g) in guards for g in guards):
             continue            # infeasible combination produced by merging early returns
         if t == NONE:
+            # a path that RAISES returns nothing either, and is not a return of None: the raise effects' own path conditions
+            raised = False
+            for e_, ctx_ in iter_effects(effs):
+                if e_.kind == 'raise':
+                    rc = [(c_.cond if br else NOT(c_.cond)) for c_, br in ctx_ if c_.kind == 'if']
+                    if rc and all(any(g == r_ or simp(g) == simp(r_) for g in guards) for r_ in rc):
+                        raised = True
+            if raised:
+                continue
             rep.fail('C17.R2', f.where, 'the weight vector is returned on every path', got='no value is returned when ' + (' and '.join(show(g) for g in guards) or 'the function is called') + ' (numpy then draws uniformly: p=None)',
                      want='return weights / sum(weights)', construct='distribution not returned')
             continue
